@@ -2,6 +2,7 @@ package main
 
 import (
 	"go/token"
+	"go/types"
 
 	"golang.org/x/tools/go/ssa"
 )
@@ -396,5 +397,113 @@ func c10DefersRunOnce(w *World, r *Report) {
 		r.Violate("R-C10-10", key, w.pos(call.Pos()), "RunDefers leaves the statements it ran on the defer stack: when an expression of the return statement that follows panics (return g(), g panics, a caller recovers) the unwinding runs the function's deferred calls a second time")
 	} else {
 		r.Discharge("R-C10-10", key, w.pos(call.Pos()), "the defer stack is reset on every path after the statements ran")
+	}
+}
+
+// R-C10-11: a catch closes what the try body left open.
+//
+// An error leaves the code between the try statement and the point of failure
+// without running the instructions that pop its block scopes and retire its
+// range loops. The catch block is compiled to run in the scope of the try
+// body itself; if deeper scopes stay pushed, a variable declared in an inner
+// block of the try body goes on shadowing an outer one after the catch, and a
+// map a range loop was iterating over stays read-only for the rest of the
+// program. The depth to return to can only come from the try frame, so the
+// rule checks the data flow: Try records the context's block depth and the
+// number of running range loops in its frame, and handleCatch uses both
+// records, popping scopes (popScopeByteCode) and retiring loops
+// (rangeDefinition.release).
+func c10CatchClosesScopes(w *World, r *Report) {
+	r.Rule("R-C10-11", "a catch closes what the try body left open: tryByteCode records Context.blockDepth and len(Context.rangeStack) in the try frame, and handleCatch reads both records and calls popScopeByteCode and rangeDefinition.release before it enters the catch block", 4)
+
+	bp := w.pkg("internal/language/bytecode")
+	if bp == nil {
+		return
+	}
+
+	tryFn := w.ssaFunc(bp, "tryByteCode")
+	catchFn := w.ssaFunc(bp, "handleCatch")
+
+	if tryFn == nil || catchFn == nil {
+		r.Anchor("R-C10-11", "bytecode.tryByteCode and bytecode.handleCatch")
+
+		return
+	}
+
+	isTryInfo := func(t types.Type) bool {
+		n := namedOf(t)
+
+		return n != nil && n.Obj().Name() == "tryInfo"
+	}
+
+	// ---- what Try records
+	recorded := map[string]bool{}
+
+	allInstrs(tryFn, func(in ssa.Instruction) {
+		st, ok := in.(*ssa.Store)
+		if !ok {
+			return
+		}
+
+		fa, ok := st.Addr.(*ssa.FieldAddr)
+		if !ok || !isTryInfo(fa.X.Type()) {
+			return
+		}
+
+		switch fieldName(fa.X.Type(), fa.Field) {
+		case "blockDepth":
+			if derivesFrom(st.Val, func(s ssa.Value) bool { return isFieldNamed(s, "blockDepth") }, nil) {
+				recorded["blockDepth"] = true
+			}
+		case "ranges":
+			if derivesFrom(st.Val, func(s ssa.Value) bool { return isFieldNamed(s, "rangeStack") }, func(string) bool { return true }) {
+				recorded["ranges"] = true
+			}
+		}
+	})
+
+	for _, f := range []string{"blockDepth", "ranges"} {
+		key := "bytecode.tryByteCode|records " + f
+		if recorded[f] {
+			r.Discharge("R-C10-11", key, w.pos(tryFn.Pos()), "stored in the try frame from the context")
+		} else {
+			r.Violate("R-C10-11", key, w.pos(tryFn.Pos()), "the try frame does not record the context's "+f+" at the try statement: the catch has nothing to return to, so scopes opened (or range loops running) inside the try body stay open after the catch")
+		}
+	}
+
+	// ---- what handleCatch does with them
+	reads := map[string]bool{}
+	calls := map[string]bool{}
+
+	allInstrs(catchFn, func(in ssa.Instruction) {
+		switch x := in.(type) {
+		case *ssa.Field:
+			if isTryInfo(x.X.Type()) {
+				reads[fieldName(x.X.Type(), x.Field)] = true
+			}
+		case *ssa.FieldAddr:
+			if isTryInfo(x.X.Type()) {
+				reads[fieldName(x.X.Type(), x.Field)] = true
+			}
+		case *ssa.Call:
+			switch callID(x.Common()) {
+			case "internal/language/bytecode.popScopeByteCode":
+				calls["pop"] = true
+			case "internal/language/bytecode.rangeDefinition.release":
+				calls["release"] = true
+			}
+		}
+	})
+
+	for _, c := range []struct{ field, call, what string }{
+		{"blockDepth", "pop", "pops the scopes the try body left open"},
+		{"ranges", "release", "retires the range loops the try body left running"},
+	} {
+		key := "bytecode.handleCatch|" + c.what
+		if reads[c.field] && calls[c.call] {
+			r.Discharge("R-C10-11", key, w.pos(catchFn.Pos()), "uses the try frame's "+c.field)
+		} else {
+			r.Violate("R-C10-11", key, w.pos(catchFn.Pos()), "handleCatch enters the catch block without this step: after `x := 1; try { if … { x := 2; <error> } } catch {}` the name x still answers 2, and a map that a range loop inside the try body was iterating over stays read-only (\"cannot change an immutable map\") for the rest of the program")
+		}
 	}
 }
